@@ -473,3 +473,177 @@ func mayExecuteAfter(a, b ssa.Instruction) bool {
 	}
 	return false
 }
+
+// ---- values held in a local copy / decoded in place -----------------------------------
+
+// localCopySource: when the allocation a is a plain local copy at instruction `use` — the only
+// store into a (or any part of it) is one whole-value store in use's block before use, and between
+// that store and use no call receives an address inside a — it returns the value copied. This is
+// the `x := xs[i]` of a range loop (or any temporary): at `use`, *a is that value of the same
+// iteration. nil when that cannot be established.
+func localCopySource(fn *ssa.Function, a *ssa.Alloc, use ssa.Instruction) ssa.Value {
+	if a == nil || use == nil {
+		return nil
+	}
+	sts := storesInto(fn, a)
+	if len(sts) != 1 || sts[0].Addr != ssa.Value(a) || sts[0].Block() != use.Block() {
+		return nil
+	}
+	seen := false
+	for _, in := range use.Block().Instrs {
+		if in == ssa.Instruction(sts[0]) {
+			seen = true
+			continue
+		}
+		if in == use {
+			if !seen {
+				return nil
+			}
+			return sts[0].Val
+		}
+		if !seen {
+			continue
+		}
+		if c, ok := in.(ssa.CallInstruction); ok {
+			for _, arg := range c.Common().Args {
+				if addrBase(arg) == a {
+					return nil
+				}
+			}
+		}
+	}
+	return nil
+}
+
+// pointeeTerm renders the value a pointer argument of the call `at` points to: the source of a
+// local copy (`x := xs[i]; f(&x)` → xs[i]) or the addressed element itself (`f(&xs[i])` → xs[i]).
+func (r *Run) pointeeTerm(fn *ssa.Function, ptr ssa.Value, at ssa.Instruction) (string, bool) {
+	if a, ok := ptr.(*ssa.Alloc); ok {
+		if w := localCopySource(fn, a, at); w != nil {
+			return r.D.D(w), true
+		}
+		return r.D.D(ptr), false
+	}
+	if in, ok := stripAddr(r.D.D(ptr)); ok {
+		return in, true
+	}
+	return r.D.D(ptr), false
+}
+
+// loadTerm renders a loaded value with a field read of a local copy resolved to the field of the
+// value copied: `x := xs[i]; … x.f …` renders as xs[i].f, like the direct read xs[i].f does.
+func (r *Run) loadTerm(fn *ssa.Function, v ssa.Value) string {
+	u, ok := v.(*ssa.UnOp)
+	if !ok || u.Op != token.MUL {
+		return r.D.D(v)
+	}
+	var path []string
+	x := u.X
+	for {
+		fa, ok := x.(*ssa.FieldAddr)
+		if !ok {
+			break
+		}
+		f := fieldOf(fa)
+		if f == nil {
+			return r.D.D(v)
+		}
+		path = append([]string{f.Name()}, path...)
+		x = fa.X
+	}
+	a, ok := x.(*ssa.Alloc)
+	if !ok {
+		return r.D.D(v)
+	}
+	w := localCopySource(fn, a, u)
+	if w == nil {
+		return r.D.D(v)
+	}
+	s := r.D.D(w)
+	for _, p := range path {
+		s += "." + p
+	}
+	return s
+}
+
+// writesIntoField lists the stores of fn whose address is field `field` of the allocation s or lies
+// inside that field.
+func writesIntoField(fn *ssa.Function, s *ssa.Alloc, field string) []*ssa.Store {
+	var out []*ssa.Store
+	eachInstr(fn, func(in ssa.Instruction) {
+		st, ok := in.(*ssa.Store)
+		if !ok {
+			return
+		}
+		v := st.Addr
+		for i := 0; i < 8 && v != nil; i++ {
+			switch x := v.(type) {
+			case *ssa.FieldAddr:
+				if f := fieldOf(x); x.X == ssa.Value(s) && f != nil && f.Name() == field {
+					out = append(out, st)
+					return
+				}
+				v = x.X
+			case *ssa.IndexAddr:
+				v = x.X
+			default:
+				return
+			}
+		}
+	})
+	return out
+}
+
+// ExpectDecodedField decides "field `field` of the struct built in the local allocation behind base
+// holds what the decoder call um decoded into its argument argi (a value of type typ)". Two forms
+// establish it: the target is a separate local of type typ and every store to the field (at least
+// one) stores that local's value; or the target is the address of the field itself (decoded in
+// place), the field has type typ, nothing else in fn writes the field or a part of it, and the
+// struct is not overwritten as a whole once the decoder has run.
+func (r *Run) ExpectDecodedField(fn *ssa.Function, keyInto, keyField string, base ssa.Value, field string, um ssa.CallInstruction, argi int, typ string) {
+	s := baseAlloc(base)
+	args := CallArgs(um)
+	if s == nil || argi >= len(args) {
+		r.Fail(keyField, r.Where(um), "undecided: value "+r.D.D(base)+" is not built in a local allocation")
+		return
+	}
+	t := args[argi]
+	if mi, ok := t.(*ssa.MakeInterface); ok {
+		t = mi.X
+	}
+	got := r.D.D(t)
+	switch x := t.(type) {
+	case *ssa.Alloc:
+		ok := x != s && TypeName(x.Type().(*types.Pointer).Elem()) == typ
+		r.Check(keyInto, ok, r.Where(um), fmt.Sprintf("arg %d of %s = %s (expected a local %s, or the %s field of the result)", argi, CalleeOf(um), got, typ, field))
+		r.ExpectStores(fn, keyField, "&("+r.D.allocName(s)+"."+field+")", "*"+r.D.allocName(x), 1)
+		for _, fs := range r.StoresTo(fn, "&("+r.D.allocName(s)+"."+field+")") {
+			for _, st := range storesInto(fn, s) {
+				if st.Addr == ssa.Value(s) && mayExecuteAfter(st, fs) {
+					r.Fail(keyField, r.Where(st), fmt.Sprintf("the whole struct is overwritten after its %s field was set from what %s decoded", field, CalleeOf(um)))
+				}
+			}
+		}
+		return
+	case *ssa.FieldAddr:
+		f := fieldOf(x)
+		if x.X == ssa.Value(s) && f != nil && f.Name() == field && TypeName(f.Type()) == typ {
+			r.Pass(keyInto, r.Where(um), fmt.Sprintf("arg %d of %s = %s: decodes in place into the %s field of the result", argi, CalleeOf(um), got, field))
+			bad := ""
+			for _, st := range writesIntoField(fn, s, field) {
+				bad = fmt.Sprintf("%s <- %s at %s overwrites what %s decoded", r.D.D(st.Addr), r.D.D(st.Val), r.Where(st), CalleeOf(um))
+			}
+			for _, st := range storesInto(fn, s) {
+				if st.Addr == ssa.Value(s) && mayExecuteAfter(st, um) {
+					bad = fmt.Sprintf("the whole struct is overwritten at %s after %s decoded into it", r.Where(st), CalleeOf(um))
+				}
+			}
+			if bad != "" {
+				bad = ", but " + bad
+			}
+			r.Check(keyField, bad == "", r.Where(um), fmt.Sprintf("%s holds what %s decoded in place%s", r.D.D(t), CalleeOf(um), bad))
+			return
+		}
+	}
+	r.Fail(keyInto, r.Where(um), fmt.Sprintf("arg %d of %s = %s (expected a local %s, or the %s field of the result)", argi, CalleeOf(um), got, typ, field))
+}
